@@ -21,7 +21,11 @@ RULE = ('case = handler flags x usage line length x argument set x evaluated hel
         'constructor flags (usage hidden / usage deprecated) and of the evaluated arguments --print-hidden, '
         '--print-deprecated, --help-short, --help-long before (or after) -h/--help is enumerated for a family of '
         'argument sets; --help-arg for exact, abbreviated, ambiguous, hidden, standard and unknown keys; usage texts '
-        '(IUsageText) before / after / unused, one or two, incl. the combinations the constructor refuses. A case is '
+        '(IUsageText) before / after / unused, one or two, incl. the combinations the constructor refuses; '
+        'descriptions whose first / middle / last word is 2 below .. 20 above the width of the description column '
+        '(one-line and two-line layout, --help-arg); one level of sub-groups (handlers created with the constructor '
+        'that shares the usage settings): every combination of the display settings on the main command line '
+        'followed by the usage of the sub-group ("-i -h"), main usage / --help-arg with sub-group arguments. A case is '
         'non-trivial when the model prints at least one entry.')
 TRUSTED_BASE = [
     'model Text/Usage.v written by hand from argument_desc.cpp, usage_params.cpp and handler.cpp (handleStartFlags, '
@@ -39,7 +43,10 @@ ASSUMPTIONS = [
     'the handler is used with "usage continues" (hfUsageCont); without it the usage ends the process',
     'printing the default value is only enabled for destination types that deliver one (defaultValue() overridden); '
     'setPrintDefault(true) on e.g. a boolean flag makes the usage throw and is outside the property',
-    'no sub-groups, no argument groups; keys contain no blank',
+    'one level of sub-groups only, sub-group handlers constructed with Handler( main, flags) and only their help '
+    'flags; no sub-group paths ("a/b") for --help-arg; no argument groups; keys contain no blank',
+    'the usage of a sub-group does not mark the usage of the MAIN handler as printed: its final checks (missing '
+    'mandatory arguments of the main handler) still run afterwards - mirrored as the code behaves, not part of C18',
     'line length in the range accepted by setUsageLineLength (60..239)',
 ]
 
@@ -907,7 +914,10 @@ CLAIM = {
             'layout-insensitive digest that harness and driver print, computed from the characters the model writes, '
             'equals the digest computed directly from the visible arguments (C18_usage_digest, _digest_key_good); usage '
             'texts are accepted / refused as handleStartFlags says, written verbatim before / after the usage and do '
-            'not disturb its digest (C18_usage_texts). The model is tied to '
+            'not disturb its digest (C18_usage_texts); the usage printed for a sub-group is the usage of exactly that '
+            'handler\'s arguments under the settings in force at that moment - the display options given on the main '
+            'command line included - so it lists the sub-group\'s visible arguments, each once, and reads as their '
+            'digest (C18_subgroup_usage, _subgroup_settings_shared). The model is tied to '
             'the code by a correspondence check on a layout-insensitive digest of the text written to the output and '
             'error stream (captions, ordered key texts, words per entry) and on the raw text as internal observable.',
     'note': 'three defects of the pinned tree found and repaired (fixes/C18-1..3): --help-arg with an abbreviated key '
@@ -915,7 +925,7 @@ CLAIM = {
             'switched the display off when the constructor flag had switched it on. trusted: Coq kernel, extraction, '
             'the hand-written model (validated by correspondence on every run), the digest function mirrored in the '
             'harness (its agreement with the spec digest is now a Coq theorem, no longer only the Python oracle); '
-            'domain: hfUsageCont, no sub-groups / groups, print-default only on types that deliver a default value, key '
+            'domain: hfUsageCont, one level of sub-groups, no argument groups, print-default only on types that deliver a default value, key '
             'characters neither blank nor newline; not modelled: the "Properties" block of --help-arg-full (needs '
             'variable / type names, value mode, cardinality and format texts in the descriptor), partial output before '
             'an exception',
